@@ -51,8 +51,7 @@ class RestoreArgParser:
         if parsed.version:
             return PrintVersionArgs(argv0=sys_argv[0])
         else:
-            path = os.path.normpath(
-                os.path.join(curdir + os.path.sep, parsed.path))
+            path = os.path.normpath(os.path.join(curdir, parsed.path))
 
             return RunRestoreArgs(path=path,
                                   sort=cast(Sort, {
